@@ -10,6 +10,7 @@ import (
 	"io"
 	"os"
 	"strconv"
+	"strings"
 	"unsafe"
 
 	"github.com/golang/snappy"
@@ -228,6 +229,79 @@ func encScenario(name, codec string) sx {
 			}
 		}
 		return T("ok")
+	case "direct-blocks-fault":
+		// FileWriter used directly (WriteHeader, then WriteBlock with row counts 0, 1, 0, 3 - empty blocks are legal), the
+		// destination failing at every write index with 0 or 1 bytes of that write accepted
+		sch, err := avro.SchemaForType(recB{})
+		if err != nil {
+			return T("violated", hs("schema: "+err.Error()))
+		}
+		js, err := sch.Marshal()
+		if err != nil {
+			return T("violated", hs("marshal: "+err.Error()))
+		}
+		rec := func(b string) []byte {
+			w := avro.NewWriteBuf(nil)
+			w.Varint(int64(len(b)))
+			w.Write([]byte(b))
+			return append([]byte(nil), w.Bytes()...)
+		}
+		blocks := []struct {
+			rows int
+			data []byte
+		}{{0, nil}, {1, rec("one")}, {0, []byte{}}, {3, append(append(rec("a"), rec("bb")...), rec("")...)}}
+		run := func(w *recWriter) (call string, err error) {
+			defer func() {
+				if r := recover(); r != nil {
+					err = fmt.Errorf("PANIC: %v", r)
+				}
+			}()
+			fw, err := avro.NewFileWriter(js, avro.Compression(codec))
+			if err != nil {
+				return "NewFileWriter", err
+			}
+			call = "WriteHeader"
+			if err := fw.WriteHeader(w); err != nil {
+				return call, err
+			}
+			for i, b := range blocks {
+				call = fmt.Sprintf("WriteBlock#%d(rows=%d)", i, b.rows)
+				if err := fw.WriteBlock(w, b.rows, b.data); err != nil {
+					return call, err
+				}
+			}
+			return "", nil
+		}
+		free := &recWriter{}
+		if call, err := run(free); err != nil {
+			return T("violated", hs(fmt.Sprintf("fault-free direct use fails in %s: %v", call, err)))
+		}
+		n := len(free.writes)
+		for k := 1; k <= n; k++ {
+			for acc := 0; acc <= 1; acc++ {
+				fl := &recWriter{failAt: k, accept: acc}
+				call, err := run(fl)
+				switch {
+				case err == nil:
+					return T("violated", hs(fmt.Sprintf("write %d of %d failed and every call returned nil", k, n)))
+				case strings.HasPrefix(err.Error(), "PANIC: "):
+					return T("violated", hs(fmt.Sprintf("write %d of %d failed and %s panicked: %v", k, n, call, err)))
+				case !errors.Is(err, errInjected):
+					return T("violated", hs(fmt.Sprintf("write %d of %d failed and %s returned an error that does not wrap the writer's: %v", k, n, call, err)))
+				}
+				if len(fl.writes) != k-1 {
+					return T("violated", hs(fmt.Sprintf("write %d of %d failed and %d writes had been accepted before", k, n, len(fl.writes))))
+				}
+				// the sync marker is random per FileWriter, so accepted writes are compared by length only here (the byte-for-byte
+				// prefix clause is judged by the model on the Encoder histories, where the marker is fixed)
+				for i, wr := range fl.writes {
+					if len(wr) != len(free.writes[i]) {
+						return T("violated", hs(fmt.Sprintf("with a failure at write %d, write %d has %d bytes; fault-free %d", k, i+1, len(wr), len(free.writes[i]))))
+					}
+				}
+			}
+		}
+		return T("ok")
 	}
 	panic("harness: unknown enc scenario " + name)
 }
@@ -346,8 +420,10 @@ func genENC(c *ctx, faults bool) {
 			}
 		}
 	}
-	if !faults {
-		for _, codec := range codecs {
+	for _, codec := range codecs {
+		if faults {
+			c.emit(T("enc-scenario", A("direct-blocks-fault"), A(codec)))
+		} else {
 			c.emit(T("enc-scenario", A("two-destinations"), A(codec)))
 		}
 	}
